@@ -135,6 +135,10 @@ def run_tlc(module: str, cfg: str | Path, *, cwd: Path | None = None, workers: i
     ms = _RE_STATES.findall(out)
     if ms:
         r.generated, r.distinct = int(ms[-1][0]), int(ms[-1][1])
+    else:
+        m2 = re.search(r"The number of states generated: (\d+)", out)       # -simulate mode
+        if m2:
+            r.generated = int(m2.group(1))
     md = _RE_DEPTH.search(out)
     if md:
         r.depth = int(md.group(1))
